@@ -169,6 +169,11 @@ class FileProxy:
 
     def write(self, data):
         ctl = self._ctl
+        enc = getattr(self._f, 'encoding', None)
+        if isinstance(data, str) and enc:
+            # a chunk the encoding cannot represent raises in the text layer before anything
+            # reaches the file: a data failure, not a failing primitive
+            data.encode(enc, getattr(self._f, 'errors', None) or 'strict')
         k = ctl.n
         if ctl.prim('write'):
             raise Injected(k)
@@ -278,9 +283,27 @@ def build_context(case, root):
         cfg['out'] = cfgval(vout)
     if step == 'filereplace':
         cfg['replacePairs'] = dict(case.get('pairs') or [])
-    d = dict(case.get('ctx') or [])
+    if case.get('enc_out'):
+        cfg['encodingOut'] = case['enc_out']
+    d = {k: ctx_value(v) for k, v in (case.get('ctx') or [])}
     d[key] = cfg
     return Context(d)
+
+
+class Unserialisable:
+    """an arbitrary object: no json / yaml / toml representation"""
+
+    def __repr__(self):
+        return '<Unserialisable>'
+
+
+def ctx_value(v):
+    """context values the case cannot hold as JSON: {'__set__': [...]}, {'__obj__': n}"""
+    if isinstance(v, dict) and '__set__' in v:
+        return set(v['__set__'])
+    if isinstance(v, dict) and '__obj__' in v:
+        return Unserialisable()
+    return v
 
 
 def populate(root, files, links=None):
@@ -314,6 +337,9 @@ def classify(e, stream):
     if isinstance(e, UnicodeDecodeError):
         # stream rewriters read lazily: an undecodable source fails while producing an item
         return ['raised', 'format' if stream else 'load', -1]
+    if name == 'RepresenterError' or isinstance(e, (TypeError, UnicodeEncodeError)):
+        # the serialiser cannot represent / encode a value: a data failure while producing output
+        return ['raised', 'format', -1]
     if name in ('JSONDecodeError', 'TOMLDecodeError') or mod.startswith('ruamel'):
         return ['raised', 'load', -1]
     if type(e) is Error:
